@@ -89,6 +89,18 @@ let psubs s = plist pitem s.items; pmap pregion s.regions; pmap pstyle s.styles
 let poptz = function None -> pint 0 | Some v -> pint 1; pz v
 let rec nat_of_int i = if i <= 0 then O else S (nat_of_int (i - 1))
 
+(* SRT *)
+let rsa r = let b = rbool r in let i = rbool r in let u = rbool r in
+  let c = (if rint r = 0 then None else Some (rstr r)) in { sa_b = b; sa_i = i; sa_u = u; sa_col = c }
+let rsrun r = let t = rstr r in let s = (if rint r = 0 then None else Some (rsa r)) in let p = rn r in
+  { sr_text = t; sr_sty = s; sr_pos = p }
+let rsitem r = let i = rz r in let s = rz r in let e = rz r in let ls = rlist (rlist rsrun) r in
+  { si_idx = i; si_st = s; si_en = e; si_lines = ls }
+let psa a = pbool a.sa_b; pbool a.sa_i; pbool a.sa_u; (match a.sa_col with None -> pint 0 | Some c -> pint 1; pstr c)
+let psrun x = pstr x.sr_text; (match x.sr_sty with None -> pint 0 | Some a -> pint 1; psa a); pn x.sr_pos
+let psitem x = pz x.si_idx; pz x.si_st; pz x.si_en; plist (plist psrun) x.si_lines
+let pres f = function Ok v -> pint 0; f v | Err _ -> pint 1 | Panic _ -> pint 2
+
 let run_case (suite : string) (r : rd) : unit =
   match suite with
   | "order" -> plist pitem (order (rlist ritem r))
@@ -120,6 +132,20 @@ let run_case (suite : string) (r : rd) : unit =
     let a1 = rz r in let d1 = rz r in let a2 = rz r in let d2 = rz r in
     plist pitem (linear_correction a1 d1 a2 d2 (rlist ritem r))
   | "fracfloat" -> let k = rint r in let n = rz r in pz (frac_float (nat_of_int k) n)
+  | "srtread" ->
+    let d = rstr r in
+    let res = read_srt d in
+    if List.for_all html_simple (lines d) then pres (plist psitem) res
+    else (Buffer.add_string b "NS "; pres (fun _ -> ()) res)
+  | "srtwrite" -> pres pstr (write_srt (rlist rsitem r))
+  | "srttext" ->
+    let line = rstr r in let a = rsa r in
+    let (runs, a') = parse_text_srt line a in
+    if not (html_simple line) then Buffer.add_string b "NS 0 " else
+    pint 1; pint 0; pint 0; pint 0; pint 1; plist psrun runs; psa a'
+  | "htmlesc" -> let t = rstr r in let e = escape_html t in pstr e; pstr (unescape_html e)
+  | "lines" -> plist pstr (lines (rstr r))
+  | "scan" -> let d = rstr r in let cs = rlist (fun r -> nat_of_int (rint r)) r in plist pstr (scan d cs)
   | "trimspace" -> pstr (trim_space (rstr r))
   | "atoi" -> poptz (atoi (rstr r))
   | _ -> failwith ("unknown suite " ^ suite)
